@@ -365,7 +365,7 @@ func join(a, b context, node parse.Node, nodeName string) context {
 // assume after context joining the element or attr containing aName and aNames with the
 // element or attr containing bName and bNames.
 func joinNames(aName, bName string, aNames, bNames []string) []string {
-	var ret []string
+	ret := append([]string(nil), aNames...)
 	if aName != bName {
 		ret = append(ret, aName, bName)
 	}
